@@ -35,7 +35,7 @@ def runtime_object(sc: R.Scratch, flags: Tuple[str, ...]) -> str:
     key = (sc.dir, flags)
     if key in _rt_cache:
         return _rt_cache[key]
-    name = "rt_" + "_".join(f.strip("-").replace("=", "") for f in flags) + ".o"
+    name = "rt_" + "_".join(f.strip("-").replace("=", "").replace("/", "-") for f in flags) + ".o"
     ok, err = run_gcc(list(flags) + ["-fPIC", "-c", os.path.join(LIBC_DIR, "bitproto.c"), "-I", LIBC_DIR, "-o", name], sc.dir)
     if not ok:
         raise RuntimeError("gcc failed on bitproto.c: " + err)
@@ -116,7 +116,26 @@ def c_struct(m: G.MsgDef, prefix: str = "") -> str:
 
 
 def shim_source(s: G.Schema, header: str, prefix: str = "", json: bool = True) -> str:
-    lines = ['#include <string.h>', '#include <stdint.h>', f'#include "{header}"', f"#define G {GUARD}"]
+    lines = ['#include <string.h>', '#include <stdint.h>', '#include <sys/mman.h>', '#include <setjmp.h>', '#include <signal.h>',
+             '#include <unistd.h>', f'#include "{header}"', f"#define G {GUARD}",
+             # a buffer of exactly n bytes whose last byte is the last byte of a page, followed by an inaccessible page:
+             # a decoder that reads (or an encoder that writes) beyond the n bytes faults, the fault is caught and reported
+             """
+static sigjmp_buf shim_jb;
+static void shim_fault(int sig) { (void)sig; siglongjmp(shim_jb, 1); }
+static unsigned char *shim_fence(int n, size_t *len) {
+  long ps = sysconf(_SC_PAGESIZE);
+  size_t pages = ((size_t)n + ps - 1) / ps + 1;
+  unsigned char *base = mmap(NULL, (pages + 1) * ps, PROT_READ | PROT_WRITE, MAP_PRIVATE | MAP_ANONYMOUS, -1, 0);
+  if (base == MAP_FAILED) return NULL;
+  mprotect(base + pages * ps, ps, PROT_NONE);
+  *len = (pages + 1) * ps;
+  return base + pages * ps - n;
+}
+static void shim_unfence(unsigned char *s, int n, size_t len) {
+  long ps = sysconf(_SC_PAGESIZE);
+  munmap(s + n + ps - len, len);
+}"""]
     for m in s.messages():
         cn = prefix + G.c_name(m)
         lv: List[Tuple[str, Any]] = []
@@ -159,6 +178,36 @@ int shim_dec_{cn}(unsigned char *s, unsigned long long *v) {{
   for (int k = 0; k < G; k++) if (blob[k] != 0xA5 || blob[G + sizeof({st}) + k] != 0xA5) return 1;
   return 0;
 }}""")
+        lines.append(f"""
+int shim_decf_{cn}(const unsigned char *data, int n, unsigned long long *v) {{
+  static unsigned char blob[G + sizeof({st}) + G + 16];
+  size_t len = 0;
+  unsigned char *s = shim_fence(n, &len);
+  if (s == NULL) return -1;
+  memcpy(s, data, n);
+  memset(blob, 0xA5, sizeof blob);
+  {st} *m = ({st} *)(blob + G);
+  memset(m, 0, sizeof({st}));
+  struct sigaction sa, o1, o2;
+  memset(&sa, 0, sizeof sa);
+  sa.sa_handler = shim_fault;
+  sigemptyset(&sa.sa_mask);
+  sigaction(SIGSEGV, &sa, &o1);
+  sigaction(SIGBUS, &sa, &o2);
+  volatile int rc = 0;
+  if (sigsetjmp(shim_jb, 1) == 0) {{
+    Decode{cn}(m, s);
+    get_{cn}(m, v);
+  }} else {{
+    rc = 2;
+  }}
+  sigaction(SIGSEGV, &o1, NULL);
+  sigaction(SIGBUS, &o2, NULL);
+  shim_unfence(s, n, len);
+  if (rc) return rc;
+  for (int k = 0; k < G; k++) if (blob[k] != 0xA5 || blob[G + sizeof({st}) + k] != 0xA5) return 1;
+  return 0;
+}}""")
         if json:
             lines.append(f"""
 int shim_json_{cn}(const unsigned long long *v, char *out) {{
@@ -190,6 +239,8 @@ class CModule:
         rtf = rt_flags if rt_flags is not None else cflags
         if single_tu:
             open(os.path.join(d, "all.c"), "w").write(
+                # a unity build as a project would write it: libc headers first (they bring in <endian.h> and its macros)
+                f'#include <stdlib.h>\n#include <stdio.h>\n#include <sys/types.h>\n'
                 f'#include "{os.path.join(LIBC_DIR, "bitproto.c")}"\n#include "{base}_bp.c"\n#include "shim.c"\n')
             args = list(rtf) + ["-shared", "-fPIC", "-w", "-I", LIBC_DIR, "-I", d, "all.c", "-o", so]
         else:
@@ -222,7 +273,12 @@ class CModule:
         nl = self.nleaves(m)
         arr = (ctypes.c_ulonglong * max(1, nl))()
         buf = (ctypes.c_ubyte * max(1, len(data)))(*data)
-        rc = getattr(self.lib, f"shim_dec_{cn}")(buf, arr)
+        # the buffer handed to the decoder ends exactly where an inaccessible page begins (shim_decf_*): reading beyond the
+        # bytes of the message faults; rc 2 = fault caught, rc 1 = guard zone around the struct damaged
+        rc = getattr(self.lib, f"shim_decf_{cn}")(buf, len(data), arr)
+        self.last_decode_rc = rc
+        if rc < 0:
+            rc = getattr(self.lib, f"shim_dec_{cn}")(buf, arr)
         return unflat_values(G.TRef(m), iter(list(arr)[:nl])), rc == 0
 
     def json(self, m: G.MsgDef, v: Dict[int, Any]) -> str:
